@@ -37,6 +37,7 @@ def run(model, rep, tier):
     rep.rule('C04.R9', 'no callback stops the run on its own: without --stop-on-error no result '
              'event sets shouldStop (every other selected test still runs)')
     tsrules.no_stop_without_flag(ctx, rep, 'C04.R9')
+    r11_totals_line(ctx, rep)
     rep.units['cfg'] = ctx.cfg_stats
 
 
@@ -669,3 +670,93 @@ def r10_absent_value_beliefs(ctx, rep, R='C04.R10'):
                               key='absent:%s->%s:%s' % (fi.qualname, callee.qualname, pname),
                               func=callee.qualname, where=ctx.where(fi, c))
     rep.floor(R, n, 1, 'falsy-constant-for-None-default call sites')
+
+
+# ---------------------------------------------------------------------------------------------
+# R11 -- the run-wide totals line is produced also when a layer failed to set up
+
+def r11_totals_line(ctx, rep, R='C04.R11'):
+    rep.rule(R, 'the run-wide summary line: Statistics.report emits output.totals(...) unless tests '
+             'were not run or exactly ONE layer was turned to (then the per-layer summary is the '
+             'total) -- decided by evaluating the guards that dominate the totals call over '
+             'layers counted in {0,1,2,3} x do_run_tests; and the count it uses is taken per layer '
+             'the runner turns to, not per layer that came up: in Runner.run_tests the layer_setup '
+             'hook loop lies on every path from picking the next layer to run_layer (it dominates '
+             'the call), so a layer whose setUp raises is counted and a run of one healthy and one '
+             'broken layer still gets its "Total:" line with the error')
+    from sa.variance import UNKNOWN, eval_guard
+    st = None
+    for ci in ctx.model.all_classes():
+        if ci.name == 'Statistics' and 'report' in ci.methods:
+            st = ci
+    if st is None:
+        from sa.srcmodel import AnalysisError
+        raise AnalysisError('anchor vanished: statistics.Statistics.report')
+    fr = st.methods['report']
+    g = ctx.cfg(fr)
+    tot = nodes_calling(g, lambda c: isinstance(c.func, ast.Attribute) and c.func.attr == 'totals')
+    rep.floor(R, len(tot), 1, 'output.totals call in Statistics.report')
+    # the counter: attribute of self incremented in the layer_setup hook
+    cnt = None
+    ls = st.methods.get('layer_setup')
+    if ls is not None:
+        for n in ast.walk(ls.node):
+            if isinstance(n, ast.AugAssign) and isinstance(n.op, ast.Add) and norm(n.value) == '1' and \
+                    isinstance(n.target, ast.Attribute):
+                cnt = norm(n.target)
+            if isinstance(n, ast.Assign) and len(n.targets) == 1 and \
+                    norm(n.value) == norm(n.targets[0]) + ' + 1':
+                cnt = norm(n.targets[0])
+    rep.check(cnt is not None, R, 'Statistics.layer_setup counts the layers (%s += 1)' % cnt,
+              'Statistics.layer_setup does not count the layers the runner turns to',
+              key='counter', func=st.name + '.layer_setup', where=ctx.where(fr, fr.node))
+    if tot and cnt:
+        from .common import expander
+        lits = g.dominating_literals(tot[0], expand=expander(fr.node))
+        for k in (0, 1, 2, 3):
+            for do in (True, False):
+                env = {cnt: k, 'self.runner.do_run_tests': do}
+                vals = []
+                for e, pos in lits:
+                    v = eval_guard(e, env)
+                    vals.append(UNKNOWN if v is UNKNOWN else (bool(v) == pos))
+                if any(v is UNKNOWN for v in vals):
+                    rep.assume('%s: a guard of the totals call is outside the finite domain (%s)'
+                               % (R, [norm(e) for e, _p in lits]))
+                    break
+                printed = all(vals)
+                want = do and k != 1
+                rep.check(printed == want, R,
+                          'totals line with %d layer(s) counted, do_run_tests=%s: %s' % (
+                              k, do, 'printed' if want else 'not printed'),
+                          'with %d layer(s) counted and do_run_tests=%s the totals line is %s (guards: %s)'
+                          % (k, do, 'printed' if printed else 'NOT printed',
+                             ' and '.join(('(%s)' if p_ else 'not (%s)') % norm(e_) for e_, p_ in lits)),
+                          key='totals-guard:%d:%s' % (k, do), func=fr.qualname, where=ctx.where(fr, fr.node))
+    # the hook loop dominates run_layer
+    fi = ctx.model.func('runner.Runner.run_tests')
+    g2 = ctx.cfg(fi)
+    rl = nodes_calling(g2, lambda c: call_name(c) == 'run_layer')
+    hk = nodes_calling(g2, lambda c: isinstance(c.func, ast.Attribute) and c.func.attr == 'layer_setup')
+    ok = bool(rl) and bool(hk)
+    if ok:
+        dom = g2.dominators()
+        # the loop over the features may run zero times: it is the loop head that has to dominate
+        heads = [n.id for n in g2.nodes if n.kind == 'for' and any(
+            any(x is g2.node(h).ast for x in ast.walk(n.stmt)) for h in hk)]
+        ok = all(any(h in dom[r] for h in hk + heads) for r in rl)
+        if ok:
+            # and unconditionally for every feature: the hook call sits in a loop over the features
+            # whose body has no guard other than the feature being active
+            for h in hk:
+                lits = [(e, p_) for e, p_ in g2.dominating_literals(h)
+                        if not (isinstance(e, ast.Attribute) and e.attr == 'active') and
+                        'layers_to_run' not in norm(e) and 'should_resume' not in norm(e)]
+                if any('setup_layers' in norm(e) for e, _p in lits):
+                    ok = False
+    rep.check(ok, R, 'Runner.run_tests: the layer_setup hooks are called for every layer before '
+              'run_layer (dominance)', 'the layer_setup hooks are not called on every path to '
+              'run_layer, or only for layers that came up: a layer whose setUp raised is not counted '
+              'and the run-wide totals line is suppressed as if a single layer had run',
+              key='hook-before-run_layer', func=fi.qualname,
+              where=ctx.where(fi, g2.node(hk[0]).ast) if hk else ctx.where(fi, fi.node))
